@@ -496,7 +496,9 @@ func (e *BinaryOpExpr) execBetweenBatch(chunk []KVPair, number bool, ctx *Execut
 			return nil, err
 		}
 		if !cmp {
-			return nil, NewExecuteError(e.GetPos(), "between operator lower boundary is greater than upper boundary")
+			// No value lies between such boundaries (as in row mode)
+			rleft[i] = false
+			continue
 		}
 		if number {
 			lcmp, err = execNumberCompare(lbvals[i], rleft[i], "<=")
